@@ -1324,10 +1324,15 @@ mod turn_part {
         /// thorough deep blocks: reach the server over TCP (`turn:...?transport=tcp`) through the
         /// harness's RFC 5766 stream front end
         pub tcp: bool,
+        /// the first (unauthenticated) Allocate is answered by the proxy itself with a 401 naming
+        /// ANOTHER realm (and a nonce the server does not know); the client's second Allocate, keyed
+        /// for that realm, reaches the real server, which challenges again with ITS realm: the
+        /// third Allocate and everything after it must be keyed for the realm of the LATEST challenge
+        pub realm_switch: Option<String>,
     }
     impl TurnCase {
         pub fn new(user: &str, realm: &str, pass: &str) -> TurnCase {
-            TurnCase { user: user.into(), realm: realm.into(), pass: pass.into(), sweep_to: 0, tcp: false }
+            TurnCase { user: user.into(), realm: realm.into(), pass: pass.into(), sweep_to: 0, tcp: false, realm_switch: None }
         }
         pub fn to_json(&self) -> Value {
             let mut v = json!({"part": "turn", "user": self.user, "realm": self.realm, "pass": self.pass});
@@ -1336,6 +1341,9 @@ mod turn_part {
             }
             if self.tcp {
                 v["transport"] = json!("tcp");
+            }
+            if let Some(r) = &self.realm_switch {
+                v["first_challenge_realm"] = json!(r);
             }
             v
         }
@@ -1346,11 +1354,12 @@ mod turn_part {
                 pass: v["pass"].as_str()?.to_string(),
                 sweep_to: v["sweep_to"].as_u64().unwrap_or(0) as usize,
                 tcp: v["transport"].as_str() == Some("tcp"),
+                realm_switch: v["first_challenge_realm"].as_str().map(|s| s.to_string()),
             })
         }
         pub fn label(&self) -> String {
             let c = |s: &str| format!("{}{}", s.len(), if s.is_ascii() { "" } else { "u" });
-            format!("user={};realm={};pass={}{}{}", c(&self.user), c(&self.realm), c(&self.pass), if self.tcp { ";transport=tcp" } else { "" }, if self.sweep_to != 0 { ";payload-sweep" } else { "" })
+            format!("user={};realm={};pass={}{}{}", c(&self.user), c(&self.realm), c(&self.pass), if self.tcp { ";transport=tcp" } else { "" }, if self.sweep_to != 0 { ";payload-sweep" } else if self.realm_switch.is_some() { ";two-challenges-with-different-realms" } else { "" })
         }
         pub fn lens(&self) -> Vec<usize> {
             if self.sweep_to == 0 {
@@ -1396,6 +1405,8 @@ mod turn_part {
         pub problems: Vec<Fail>,           // client->server messages the reference rejects
         pub mi_checked: u64,
         pub fp_checked: u64,
+        /// realm-switch sessions: challenges of the real server (with its own realm) passed on after the proxy's
+        pub second_challenges: u64,
         /// things seen that the property does not speak about (reported, not judged)
         pub notes: Vec<String>,
     }
@@ -1412,7 +1423,7 @@ mod turn_part {
     }
 
     /// Judge one client->server datagram with the reference implementations.
-    fn judge_client_datagram(obs: &mut Observed, tc: &TurnCase, d: &[u8]) {
+    fn judge_client_datagram(obs: &mut Observed, tc: &TurnCase, expect_realm: &str, d: &[u8]) {
         if d.is_empty() {
             return;
         }
@@ -1451,13 +1462,13 @@ mod turn_part {
             obs.mi_checked += 1;
             match (TextAttribute::get_from_as(&m, ATTR_USERNAME), TextAttribute::get_from_as(&m, ATTR_REALM)) {
                 (Ok(u), Ok(r)) => {
-                    if u.text != tc.user || r.text != tc.realm {
-                        obs.problems.push(("credential-attr".into(), format!("{name}: USERNAME/REALM on the wire differ from the configured ones")));
+                    if u.text != tc.user || r.text != *expect_realm {
+                        obs.problems.push(("credential-attr".into(), format!("{name}: USERNAME/REALM on the wire differ from the configured user / the realm of the latest challenge")));
                     }
                 }
                 _ => obs.problems.push(("credential-attr".into(), format!("{name}: MESSAGE-INTEGRITY without USERNAME/REALM"))),
             }
-            let key = generate_auth_key(&tc.user, &tc.realm, &tc.pass);
+            let key = generate_auth_key(&tc.user, expect_realm, &tc.pass);
             if let Err(e) = MessageIntegrity(key).check(&mut m) {
                 obs.problems.push(("mi-invalid".into(), format!("{name}: long-term MESSAGE-INTEGRITY: {e}")));
             }
@@ -1574,7 +1585,7 @@ mod turn_part {
                             match read_stream_message(&mut rd).await {
                                 Ok(Some((msg, consumed))) => {
                                     pos += consumed;
-                                    judge_client_datagram(&mut obs1.lock().unwrap(), &tc1, &msg);
+                                    judge_client_datagram(&mut obs1.lock().unwrap(), &tc1, &tc1.realm, &msg);
                                     let _ = back1.send_to(&msg, srv_addr).await;
                                 }
                                 Ok(None) => break,
@@ -1611,16 +1622,64 @@ mod turn_part {
                 let mut b1 = vec![0u8; 4096];
                 let mut b2 = vec![0u8; 4096];
                 let mut seen401 = false;
+                // the realm the client's authenticated requests must be keyed for: that of the latest challenge
+                let mut cur_realm = tc.realm.clone();
+                let mut own_challenge_sent = false;
+                let mut server_challenge_seen = false;
                 loop {
                     tokio::select! {
                         r = front.recv_from(&mut b1) => {
                             let Ok((n, from)) = r else { break };
                             client = Some(from);
-                            judge_client_datagram(&mut obs.lock().unwrap(), &tc, &b1[..n]);
+                            if let (Some(first), false) = (&tc.realm_switch, own_challenge_sent) {
+                                let mut m = Message::new();
+                                if m.unmarshal_binary(&b1[..n]).is_ok() && m.typ.method == METHOD_ALLOCATE && m.typ.class == CLASS_REQUEST && !m.contains(ATTR_MESSAGE_INTEGRITY) {
+                                    // the proxy's own first challenge: another realm, a nonce the server does not know
+                                    own_challenge_sent = true;
+                                    cur_realm = first.clone();
+                                    obs.lock().unwrap().client_stun.push(format!("{}", m.typ));
+                                    let mut attrs: Vec<u8> = vec![];
+                                    let mut put = |t: u16, v: &[u8]| {
+                                        attrs.extend_from_slice(&t.to_be_bytes());
+                                        attrs.extend_from_slice(&(v.len() as u16).to_be_bytes());
+                                        attrs.extend_from_slice(v);
+                                        while attrs.len() % 4 != 0 {
+                                            attrs.push(0);
+                                        }
+                                    };
+                                    let mut ec = vec![0, 0, 4, 1];
+                                    ec.extend_from_slice(b"Unauthorized");
+                                    put(0x0009, &ec);
+                                    put(0x0014, first.as_bytes());
+                                    put(0x0015, b"nonce-of-the-first-challenge-0001");
+                                    let mut out = vec![0x01, 0x13];
+                                    out.extend_from_slice(&(attrs.len() as u16).to_be_bytes());
+                                    out.extend_from_slice(&b1[4..20]);
+                                    out.extend_from_slice(&attrs);
+                                    let _ = front.send_to(&out, from).await;
+                                    continue;
+                                }
+                            }
+                            judge_client_datagram(&mut obs.lock().unwrap(), &tc, &cur_realm, &b1[..n]);
                             let _ = back.send_to(&b1[..n], srv_addr).await;
                         }
                         r = back.recv_from(&mut b2) => {
                             let Ok((n, _)) = r else { break };
+                            if tc.realm_switch.is_some() {
+                                let mut m = Message::new();
+                                if m.unmarshal_binary(&b2[..n]).is_ok() && m.typ.class == CLASS_ERROR_RESPONSE {
+                                    if let Ok(r) = TextAttribute::get_from_as(&m, ATTR_REALM) {
+                                        // the server's challenge (401 or 438 Stale Nonce) with ITS realm is expected once
+                                        if !server_challenge_seen {
+                                            server_challenge_seen = true;
+                                            cur_realm = r.text.clone();
+                                            obs.lock().unwrap().second_challenges += 1;
+                                            if let Some(c) = client { let _ = front.send_to(&b2[..n], c).await; }
+                                            continue;
+                                        }
+                                    }
+                                }
+                            }
                             judge_server_datagram(&mut obs.lock().unwrap(), &b2[..n], &mut seen401);
                             if let Some(c) = client { let _ = front.send_to(&b2[..n], c).await; }
                         }
@@ -1980,6 +2039,12 @@ fn run_turn(rep: &mut vh::Report, cases: Vec<turn_part::TurnCase>, conc: usize) 
                         notes.push(n.clone());
                     }
                 }
+                if let Some(first) = &tc.realm_switch {
+                    rep.add("turn_two_challenge_sessions_ok", 1);
+                    if *first != tc.realm {
+                        rep.add("turn_two_challenge_sessions_where_the_realm_changed", s.observed.second_challenges.min(1));
+                    }
+                }
                 if tc.tcp {
                     rep.add("turn_tcp_sessions_ok", 1);
                     rep.add("turn_tcp_payloads_relayed_byte_exact", s.relayed);
@@ -2307,9 +2372,23 @@ fn main() {
             }
         }
     }
+    // two consecutive challenges naming different realms (and, as a control, the same realm twice)
+    let mut n_switch = 0usize;
+    for (u, r, p) in [("U", "U", "U"), (vals[3].as_str(), "Seven-7", "eighT 88"), (vals[4].as_str(), vals[2].as_str(), vals[1].as_str())] {
+        for first in ["first.example", "F", r] {
+            let mut tc = turn_part::TurnCase::new(u, r, p);
+            tc.realm_switch = Some(first.to_string());
+            tcs.push(tc);
+            n_switch += 1;
+        }
+    }
+    rep.set("turn_sessions_with_two_challenges", n_switch as u64);
     let t0 = std::time::Instant::now();
     let n_cred_sessions = tcs.len();
     run_turn(&mut rep, tcs, 6);
+    if rep.violation_count() == 0 && rep.get("turn_two_challenge_sessions_where_the_realm_changed") == 0 {
+        vh::machinery_failure("vacuous: no TURN session saw a second challenge with another realm");
+    }
     if thorough {
         // every payload length 1..=1250 through ChannelData, Send indication and both return paths
         let mut sweep = vec![];
